@@ -286,23 +286,24 @@ def isTentOf (name : Sym) (o : Obj) : Bool := o.isTentative && o.sym == name
     The second inner loop walks `var->next ...`, whose `next` pointers are still the original ones; the
     tentative definition it finds (`var2`, declared earlier) is the one that stays, and it takes `var`'s
     type when its own array length is unknown (`var` has been completed just before, so `var->ty->size >= 0`). -/
-def scanLoop (all : List Obj) : List Obj → List Obj
-  | [] => []
-  | var :: rest =>
-    if !var.isTentative then var :: scanLoop all rest
+def scanLoop (all : List Obj) : Nat → List Obj → List Obj
+  | 0, _ => []
+  | _ + 1, [] => []
+  | n + 1, var :: rest =>
+    if !var.isTentative then var :: scanLoop all n rest
     else
       let var := completeArray var
-      if all.any (fun o => o.isDefinition && !o.isTentative && o.sym == var.sym) then scanLoop all rest
+      if all.any (fun o => o.isDefinition && !o.isTentative && o.sym == var.sym) then scanLoop all n rest
       else match rest.find? (isTentOf var.sym) with
         | some var2 =>
           if var2.ty.unknownLen then
-            scanLoop all (updFirst (isTentOf var.sym) (fun o => { o with ty := var.ty }) rest)
-          else scanLoop all rest
-        | none => var :: scanLoop all rest
-termination_by l => l.length
-decreasing_by all_goals sorry
+            scanLoop all n (updFirst (isTentOf var.sym) (fun o => { o with ty := var.ty }) rest)
+          else scanLoop all n rest
+        | none => var :: scanLoop all n rest
 
-def scanGlobals (gs : List Obj) : List Obj := scanLoop gs gs
+/-- the `Nat` argument only makes the recursion structural (the list passed on is `rest` with one node's type
+    changed): one step per node, so `gs.length` steps process the whole list -/
+def scanGlobals (gs : List Obj) : List Obj := scanLoop gs gs.length gs
 
 /-- `parse` -/
 def parseUnit (ds : List Decl) : Except ParseErr (List Obj) := do
